@@ -41,37 +41,36 @@ CHECKS = {
         'validated array of the last fit. Numeric validity (finite / PSD values) is NOT decided.'),
   note=TB),
  'C05': dict(
-  technique='static analysis: taint abstract interpretation (single validated choke point), value-flow of the preprocessor to every check_input call site, path-condition and who-may-call rules, structural normal form of tuple formation, try/except exception-class resolution',
+  technique='static analysis: taint abstract interpretation (single validated choke point), value-flow of the preprocessor to every check_input call site, path-condition and who-may-call rules, structural normal form of tuple formation, try/except exception-class resolution, decision tables by abstract interpretation of the syntax tree on a finite partition of the inputs (minterp)',
   text=('Decides the routing that makes indices+preprocessor equivalent to formed data for all 17 estimators x every data-taking '
         'method: the raw argument only reaches the validator; every check_input call gets self.preprocessor_, derived first by '
         '_check_preprocessor (array-like -> ArrayIndexer(array), callable/None -> itself, else ValueError); the preprocessor is '
         'invoked only by preprocess_tuples/preprocess_points, only under ndim == formed_ndim-1 and preprocessor is not None; tuple '
         'slot j is preprocessor(tuples[:, j]) in order along axis 1; ArrayIndexer is X[indices]; every call through the user '
-        'callable is wrapped into PreprocessorError. Stateful / non-deterministic callables are NOT covered.'),
+        'callable is wrapped into PreprocessorError; _check_preprocessor, interpreted for a preprocessor that is None / callable / array-like / callable array-like / a number, stores None / the callable / ArrayIndexer(array) (twice) / raises ValueError. Stateful / non-deterministic callables are NOT covered.'),
   note=TB),
  'C06': dict(
-  technique='static analysis: taint (raw -> converted -> validated) abstract interpretation of all 103 data-taking (estimator, method) pairs with inlined callees, must-pass-through and path-condition rules on the validators, exception-class resolution, library-signature conformance',
+  technique='static analysis: taint (raw -> converted -> validated) abstract interpretation of all 103 data-taking (estimator, method) pairs with inlined callees, must-pass-through and path-condition rules on the validators, exception-class resolution, library-signature conformance, decision tables by abstract interpretation of the syntax tree on a finite partition of the inputs (minterp)',
   text=('Decides totality of validation for all 17 estimators x every data-taking method: the unvalidated data / label argument is '
         'never used except by handing it to the validators; every value check_input returns has passed the strict scikit-learn check '
         '(finiteness on, numeric dtype, min samples/features) on every path; the tuple size reaching check_tuple_size is the class\'s '
         '(2 for pair_*); every raise in the validators is a ValueError; n_components is range-checked (1..n_features) on every fit '
         'path; calibration parameters are validated before any fitting work; no call can raise TypeError from a keyword the installed '
-        'library lacks. Which concrete arrays scikit-learn\'s check_array rejects, feature-count mismatch at predict time and '
+        'library lacks; check_input with its helpers, interpreted on a grammar of 500+ inputs (kind x ndim 0..4 x preprocessor x tuple size x feature count x labels valid / outside {-1,+1} / wrong length x what the caller\'s options reject), raises ValueError and nothing else for every malformed input, returns the strictly validated (and, for indices, preprocessed) array with the validated labels for every well-formed one, and hands the caller\'s options to the strict validation. Which concrete arrays scikit-learn\'s check_array rejects, feature-count mismatch at predict time and '
         'array-like equivalence are NOT decided.'),
   note=TB),
  'C07': dict(
-  technique='static analysis: index-provenance (frame) abstract interpretation of the constraint generators (values-in-frame / layout-frame typing with composition rules), partial evaluation on the same_label flag, path-condition and structural rules, who-may-call rule for random draws',
+  technique='static analysis: index-provenance (frame) abstract interpretation of the constraint generators (values-in-frame / layout-frame typing with composition rules), partial evaluation on the same_label flag, path-condition and structural rules, who-may-call rule for random draws, decision tables by abstract interpretation of the syntax tree on a finite partition of the inputs (minterp)',
   text=('Decides for every label vector, parameter and seed: every index array returned by positive_negative_pairs/_pairs/'
         'generate_knntriplets holds positions in the caller\'s array restricted to points with a known label (where/mask/fancy-index/'
         'np.take/kneighbors/randint composition typed by frame); chunk ids are written only at known-label positions of the caller\'s '
         'array; _pairs adds (a,b) with equal labels and a != b under same_label=True and different labels under False; pairs accumulate '
         'in a set, at most n_constraints are returned, a warning is issued on every path with fewer, same_length truncates all four '
         'arrays to one length; chunk draws are without replacement and removed from the pool before the next draw, infeasible '
-        'requests raise ValueError first; every draw is on check_random_state(random_state), no global generator. k-NN correctness, '
-        'combination counts and exact chunk counts are NOT decided.'),
+        'requests raise ValueError first; every draw is on check_random_state(random_state), no global generator; generate_knntriplets interpreted on 35 class layouts x (k_genuine, k_impostor): no in-scope layout raises, genuine neighbours are the min(k, n_c-1) nearest of the own class without the point itself, impostors the min(k, N-n_c) nearest of the other classes, positions are mapped through the index array of the searched set, comb gets (anchor, genuine, impostor) and the classes fill consecutive disjoint slices of n_c*k_g*k_i rows; comb on symbolic atoms yields every (a_i, b_ij, c_il) exactly once; chunks interpreted on 28 layout x request combinations over every outcome of the class choice: infeasible -> ValueError before any draw, otherwise ids 0..n-1 each once on chunk_size members of one known class, removed before the next draw. Which points are nearest (the neighbour search itself) is NOT decided.'),
   note=TB),
  'C08': dict(
-  technique='static analysis: call-graph identity of the learner core, value-flow of hyper-parameters to the formals of the constraint generator, frame typing of the gather X[constraints], dependence tags separating all-rows values from known-label gathers, FRESH rule (shared with C17), constructor forwarding (shared with C18)',
+  technique='static analysis: call-graph identity of the learner core, value-flow of hyper-parameters to the formals of the constraint generator, frame typing of the gather X[constraints], dependence tags separating all-rows values from known-label gathers, FRESH rule (shared with C17), constructor forwarding (shared with C18), decision tables by abstract interpretation of the syntax tree on a finite partition of the inputs (minterp)',
   text=('Decides for the six *_Supervised estimators: fit runs on every path the very function the weakly-supervised fit runs; '
         'constraints come from the documented Constraints generator with self.random_state / n_constraints (20*n_classes^2 when None) / '
         'same_length (LSML) / n_chunks, chunk_size (RCA) / k_genuine, k_impostor (SCML) bound to the right formals; the labels given to '
@@ -79,7 +78,7 @@ CHECKS = {
         'that same array restricted to known labels (unlabeled points are absent); the feature values of the prepared data reach the base algorithm only through '
         'gathers restricted to known labels (no statistic of all rows, no row count - this rule found the LDA-basis defect of SCML_Supervised, repaired); '
         'no hyper-parameter object is written in place by a supervised fit; every constructor parameter reaches the shared core '
-        'with the caller\'s value. Numeric equality of the two fits follows from "same function, same arguments" and is not separately decided.'),
+        'with the caller\'s value; the supervised fit interpreted up to the generator call hands it 7 resp. 20 * classes^2 for n_constraints in {7, None} and 2, 3, 5 classes. Numeric equality of the two fits follows from "same function, same arguments" and is not separately decided.'),
   note=TB),
  'C09': dict(
   technique='static analysis: axis agreement of order-statistic selections (ndim inferred from producers), sibling rule over all np.cov sites, symbolic matrix-algebra evaluation of Covariance.fit and RCA\'s inverse square root, structural rules on RCA centring and LFDA ordering / embedding table, algebra of powers of distances for LFDA\'s affinity, reachability of branch statements on representatives of (dim, d)',
@@ -194,7 +193,7 @@ CHECKS = {
         'sample-permutation relations are NOT decided.'),
   note=TB + ' check_input / _prepare_inputs summarised as value identities.'),
  'C20': dict(
-  technique=ALG + '; library axioms (cholesky, eigh, orthogonality) as rewrite rules; option-table enumeration by constant-specialised abstract interpretation; path-condition rules',
+  technique=ALG + '; library axioms (cholesky, eigh, orthogonality) as rewrite rules; option-table enumeration by constant-specialised abstract interpretation; path-condition rules, decision tables by abstract interpretation of the syntax tree on a finite partition of the inputs (minterp)',
   text=('Decides: every return path of components_from_metric satisfies L^T L = M in the matrix algebra (Cholesky needs the '
         'transpose, eigen branch Diag(sqrt(max(0,w))) V^T with broadcasting orientation, diagonal shortcut), with max(0,x)~x only for '
         'a spectrum that passed _check_sdp_from_eigen on that path; symmetry is tested before every return and rejects with '
@@ -203,7 +202,7 @@ CHECKS = {
         'rowvar=False); make_spd_matrix; the checked copy) as the pair (X, X^-1) in that order, dispatches every accepted value, '
         'rejects others with ValueError, and never returns a non-definite matrix under strict_pd; ITML/LSML/SDML pass strict_pd=True '
         'and MMC does not; _initialize_components dispatches/rejects per documented table, _auto_select_init is the documented three-way '
-        'rule, array init shape checks exist; SCML basis option tables agree with their dispatch; the default eigenvalue tolerance of the definiteness test and of the pseudo-inverse is the same documented level max|w| * len(w) * eps. Numeric tolerance behaviour is NOT decided.'),
+        'rule, array init shape checks exist; SCML basis option tables agree with their dispatch; the default eigenvalue tolerance of the definiteness test and of the pseudo-inverse is the same documented level max|w| * len(w) * eps; by interpretation on representatives: _check_sdp_from_eigen raises NonPSDError iff some eigenvalue < -tol and returns whether no |w| < tol; _pseudo_inverse_from_eig returns V Diag(w\') V^T with w\'_i = 1/w_i where |w_i| > tol else 0 (exact rationals); _initialize_metric_mahalanobis on 150 and _initialize_components on 240 option / shape / definiteness combinations give the documented error or matrix form. Floating-point behaviour at the tolerance boundary is NOT decided.'),
   note=TB),
 }
 
